@@ -23,7 +23,21 @@ fn three_docs() -> Vec<ADoc> {
         vec![at("xml:lang", "en")],
         vec![e("a", vec![at("xml:lang", "en-US")], vec![tx("t")]), e("b", vec![at("xml:lang", "日本語")], vec![]), e("c", vec![at("xml:lang", "")], vec![]), e("d", vec![at("xml:lang", "é")], vec![])],
     ));
-    vec![d[0].clone(), d[1].clone(), d[4].clone(), langs, d[9].clone()]
+    // accepted by the implementation although it breaks the namespace constraint on reserved names: another prefix bound
+    // to the XML namespace name (totality is demanded for every accepted document)
+    let reserved = doc(el("r", vec![at("xmlns:q", "http://www.w3.org/XML/1998/namespace"), at("q:lang", "en")], vec![e("a", vec![], vec![tx("t")])]));
+    vec![d[0].clone(), d[1].clone(), d[4].clone(), langs, d[9].clone(), reserved]
+}
+
+/// 28 elements of one name nested in each other, an attribute on every second: the descendant lists of nested context nodes overlap
+fn deep_doc() -> ADoc {
+    use crate::model::adoc::*;
+    let mut cur = el("a", vec![at("x", "0")], vec![tx("t")]);
+    for i in 1..28 {
+        let attrs = if i % 2 == 0 { vec![at("x", &i.to_string())] } else { vec![] };
+        cur = el("a", attrs, vec![ANode::Elem(cur)]);
+    }
+    doc(el("r", vec![], vec![ANode::Elem(cur)]))
 }
 
 /// four namespace nodes per element and a DTD-defaulted attribute on four elements: nodes without an order key of their own
@@ -341,6 +355,11 @@ fn families() -> Vec<Family> {
         Family { name: "nested-predicates-count", sizes: steps(2, 40, 2), make: |n| format!("//a{}{}", "[count(//a".repeat(n), ") > 0]".repeat(n)) },
         Family { name: "nested-predicates-position", sizes: steps(2, 40, 2), make: |n| format!("//*{}{}", "[../*[position() = last()]".repeat(n), "]".repeat(n)) },
         Family { name: "nested-filter-predicates", sizes: steps(2, 40, 2), make: |n| format!("//a{}{}", "[(//a)".repeat(n), "]".repeat(n)) },
+        Family { name: "descendant-name-chain-deep-document", sizes: steps(2, 40, 2), make: |n| "//a".repeat(n) },
+        Family { name: "descendant-star-chain-deep-document", sizes: steps(2, 40, 2), make: |n| "//*".repeat(n) },
+        Family { name: "descendant-attribute-chain-deep-document", sizes: steps(2, 40, 2), make: |n| format!("{}//@x", "//a".repeat(n)) },
+        Family { name: "ancestor-descendant-zigzag-deep-document", sizes: steps(2, 40, 2), make: |n| format!("//a{}", "/ancestor::a/descendant::a".repeat(n)) },
+        Family { name: "nested-predicates-deep-document", sizes: steps(2, 40, 2), make: |n| format!("//a{}{}", "[.//a".repeat(n), "]".repeat(n)) },
         Family { name: "nested-predicates-namespace-nodes", sizes: steps(2, 40, 2), make: |n| format!("//namespace::*{}[1 = 1]{}", "[//namespace::*".repeat(n), "]".repeat(n)) },
         Family { name: "nested-predicates-defaulted-attributes", sizes: steps(2, 40, 2), make: |n| format!("//@a{}[1 = 1]{}", "[//@a".repeat(n), "]".repeat(n)) },
         Family { name: "zigzag-namespace-nodes", sizes: steps(2, 40, 2), make: |n| format!("//*{}", "/namespace::*/self::node()/descendant-or-self::node()".repeat(n)) },
@@ -370,7 +389,13 @@ impl Space for Families {
         }
         with_fixtures(&self.docs, |fxs| {
             // the families over nodes without an order key of their own run on the document that has such nodes
-            let fx = if f.name.ends_with("-namespace-nodes") || f.name.ends_with("-defaulted-attributes") { &fxs[fxs.len() - 1] } else { &fxs[0] };
+            let fx = if f.name.ends_with("-namespace-nodes") || f.name.ends_with("-defaulted-attributes") {
+                &fxs[fxs.len() - 1]
+            } else if f.name.ends_with("-deep-document") {
+                &fxs[fxs.len() - 2]
+            } else {
+                &fxs[0]
+            };
             let mut prev: Option<(usize, f64)> = None;
             for &n in &f.sizes {
                 let text = (f.make)(n);
@@ -447,6 +472,7 @@ impl Check for C06C {
             "garbage" => Box::new(Garbage::new(tier.pick(3, 4))),
             _ => {
                 let mut docs = three_docs();
+                docs.push(deep_doc());
                 docs.push(keyless_nodes_doc());
                 Box::new(Families { docs, fams: families(), soft_cap: tier.pick(1.0, 3.0) })
             }
